@@ -636,7 +636,7 @@ def m_sv_remove(ex, c, args, m):
     return v.items.pop(i)
 
 # ------------------------------------------------------------------ HashMap / VecMap
-@M.add(r'^std::collections::HashMap::<.*>::(get|get_mut|contains_key|insert|remove)(::<.*>)?$|^VecMap::<.*>::(get|get_mut|contains_key|insert|remove)(::<.*>)?$|^<VecMap<.*> as .*AbstractVecMap<.*>>::(get|contains_key)(::<.*>)?$')
+@M.add(r'^(?:std::collections::)?HashMap::<.*>::(get|get_mut|contains_key|insert|remove)(::<.*>)?$|^VecMap::<.*>::(get|get_mut|contains_key|insert|remove)(::<.*>)?$|^<VecMap<.*> as .*AbstractVecMap<.*>>::(get|contains_key)(::<.*>)?$')
 def m_hm_ops(ex, c, args, m):
     op = m.group(1) or m.group(3) or m.group(5); mp = dd(args[0]); k = args[1] if op == 'insert' else dd(args[1]); it = hm_find(ex, mp, k)
     if op in ('get', 'get_mut'): return some(Ref(it, 1)) if it else none()
